@@ -20,10 +20,17 @@ Definition shift_m (b : N) (m : MatchList.mtch) : MatchList.mtch :=
 Definition unanchored (sp : subpat) : bool :=
   match sp_kind sp with KLiteral _ (Some _) => false | _ => true end.
 
-(* the pipeline on the block (base, d): the matches found in d, rebased, then added *)
-Definition scan_pipeline_at (base : N) (sps : list subpat) (atoms : list atom) (hits : list hit) (d : bytes) : match_list :=
-  run_adds (map (fun r => (shift_m base (mtch_of r), false))
+(* the pipeline on the block (base, d): the matches found in d, rebased, then added
+   ([rf]: the replace_if_longer flag the pipeline passes to PatternMatches::add) *)
+Definition scan_pipeline_at (rf : bool) (base : N) (sps : list subpat) (atoms : list atom) (hits : list hit) (d : bytes) : match_list :=
+  run_adds (map (fun r => (shift_m base (mtch_of r), rf))
                 (flat_map (fun h => opt_list (handle_hit sps atoms d h)) hits)).
+
+(* the pipeline of Pat/Pipeline.v, with the flag made explicit *)
+Definition scan_pipeline_rf (rf : bool) (sps : list subpat) (atoms : list atom) (hits : list hit) (d : bytes) : match_list :=
+  run_adds (map (fun r => (mtch_of r, rf))
+                (flat_map (fun sp => opt_list (verify_anchored sp d)) sps ++
+                 flat_map (fun h => opt_list (handle_hit sps atoms d h)) hits)).
 
 (* the matches as Blocks.v sees them: (start, length, xor key + 1 or 0) *)
 Definition to_blk (m : MatchList.mtch) : Blocks.mtch :=
